@@ -33,7 +33,7 @@ def REQUIRED(tier):
 
 def _required(tier):
     return ["files_cleaned", "hook:apply_mask", "hook:apply_method", "hook:apply_funcn", "mask_union_checks", "vectors:mad", "vectors:iqrm", "vector:all_equal", "vector:planted_outlier",
-            "file_samples_compared", "regime:multi_block", "roundtrip_checks", "freq:empty_list", "freq:outside_band", "freq:overlapping", "freq:limit_on_centre", "algebra_histories", "regime:subrange_cleaned", "regime:negative_float_samples", "regime:float_mask_value_outside_0_255", "custom_function_input_checks", "regime:cleaning_after_a_refused_call", "regime:integer_valued_custom_mask", "band:ascending", "second_cleaning_on_same_reader", "roundtrip:saved_over_an_existing_mask_file", "vector:mostly_tied", "algebra:duplicate_taken_mid_history", "vector:tiny_scale", "vector:fewer_than_12_channels"]
+            "file_samples_compared", "regime:multi_block", "roundtrip_checks", "freq:empty_list", "freq:outside_band", "freq:overlapping", "freq:limit_on_centre", "algebra_histories", "regime:subrange_cleaned", "regime:negative_float_samples", "regime:float_mask_value_outside_0_255", "custom_function_input_checks", "regime:cleaning_after_a_refused_call", "regime:integer_valued_custom_mask", "band:ascending", "second_cleaning_on_same_reader", "roundtrip:saved_over_an_existing_mask_file", "vector:mostly_tied", "algebra:duplicate_taken_mid_history", "vector:tiny_scale", "vector:fewer_than_12_channels", "vector:float64_high_level"]
 
 
 def cases(tier, seed):
@@ -412,8 +412,16 @@ def _vectors(case, ctx):
             planted = int(rng.integers(0, n))
             x[planted] += float(rng.choice([-1, 1])) * 1.0e-5
         x = x.astype(np.float32)
+        f64 = bool(j % 10 == 9)
+        if f64:
+            # statistics computed elsewhere in double precision on a high level (variances ~1e9 whose differences are tens): the lagged
+            # differences are taken at the precision the caller supplied
+            x = 1.0e9 + np.round(rng.normal(size=n) * 10.0)
+            planted = int(rng.integers(0, n))
+            x[planted] += float(rng.choice([-1, 1])) * 400.0
+            cls = "float64_high_level"
         thr = float(rng.choice([3.0, 2.0, 5.0, float(rng.uniform(0.5, 8))]))
-        for method, fn in (("mad", rfi.double_mad_mask), ("iqrm", rfi.iqrm_mask)):
+        for method, fn in ((("mad", rfi.double_mad_mask), ("iqrm", rfi.iqrm_mask)) if not f64 else (("iqrm", rfi.iqrm_mask),)):
             ctx.evaluated(); ctx.count(f"vectors:{method}"); ctx.count(f"vector:{cls}")
             one = {"kind": "vectors", "n": 1, "seed": case["seed"], "only": j, "method": method, "cls": cls}
             try:
